@@ -129,31 +129,42 @@ def merge(docs_path, run_paths, workdir, chunk):
 def judge(trace_path, timeout=1500):
     """SdlTrace on one ndjson file -> list of verdict dicts of the lines TLC did not find good."""
     n = sum(1 for _ in open(trace_path))
-    r = vlib.tlc(SPEC_DIR, "SdlTrace", "SdlTrace.cfg", copy_files={"trace.ndjson": trace_path}, workers=1,
-                 timeout=timeout, deadlock=False, heap="3g")
+    for attempt in (1, 2, 3):
+        r = vlib.tlc(SPEC_DIR, "SdlTrace", "SdlTrace.cfg", copy_files={"trace.ndjson": trace_path}, workers=1,
+                     timeout=timeout, deadlock=False, heap="2g")
+        if r.ok or "Error:" in r.out:
+            break
+        # the JVM died without a TLC error (killed under memory pressure on a shared machine): run it again
+        vlib.log("[C18] SdlTrace JVM exited rc=%s without a TLC verdict on %s (attempt %d), retrying" % (
+            r.rc, os.path.basename(trace_path), attempt))
+        time.sleep(2 * attempt)
     if not r.ok:
-        raise vlib.Inconclusive("SdlTrace: TLC failed on %s (violated=%s)\n%s" % (
-            trace_path, r.violated, (r.error or r.out[-3000:])))
+        raise vlib.Inconclusive("SdlTrace: TLC failed on %s (rc=%s violated=%s)\n%s" % (
+            trace_path, r.rc, r.violated, (r.error or r.out[-3000:])))
     if r.distinct != n + 1:
         raise vlib.Inconclusive("SdlTrace walked %d states for %d recorded lines" % (r.distinct, n))
     return [v for v in printed_json(r.out) if "faithful" in v]
 
 
-def selftest(trace_path, workdir):
+def selftest(trace_paths, flagged_ids, workdir):
     """Binding self-test: corrupt one recorded field per clause on real recorded lines, drop one recorded service;
-    TLC must flag exactly those lines and none of the untouched ones."""
-    lines = [json.loads(x) for x in open(trace_path)]
-    # keep the first documents whose runs were all accepted and cross-validated
-    behaviours, cur = [], None
-    for ln in lines:
-        if ln["ev"] == "doc":
-            cur = [ln]
-            behaviours.append(cur)
-        else:
-            cur.append(ln)
-    good = [b for b in behaviours if len(b) >= 4 and all(x["out"]["state"] == "ok" and x["xval"] == "ok" for x in b[1:])]
+    TLC must flag exactly those lines and none of the untouched ones. Uses behaviours the main J3 found clean."""
+    good = []
+    for tp in trace_paths:
+        behaviours, cur = [], None
+        for raw in open(tp):
+            ln = json.loads(raw)
+            if ln["ev"] == "doc":
+                cur = [ln]
+                behaviours.append(cur)
+            else:
+                cur.append(ln)
+        good += [b for b in behaviours if len(b) >= 4 and b[0]["id"] not in flagged_ids
+                 and all(x["out"]["state"] == "ok" and x["xval"] == "ok" for x in b[1:])]
+        if len(good) >= 5:
+            break
     if len(good) < 5:
-        raise vlib.Inconclusive("binding self-test: fewer than 5 accepted documents in the first trace chunk")
+        return {"ok": False, "skipped": "fewer than 5 clean accepted documents to corrupt"}
     good = [json.loads(json.dumps(b)) for b in good[:5]]
     orig = [json.loads(json.dumps(b)) for b in good]
     for k, b in enumerate(good, 1):           # renumber, so that line -> behaviour is easy to read back
@@ -201,8 +212,6 @@ def selftest(trace_path, workdir):
         "control_passes": not new[5],
     }
     res["ok"] = all(res.values())
-    if not res["ok"]:
-        raise vlib.Inconclusive("binding self-test failed: %s" % res)
     return res
 
 
@@ -270,10 +279,9 @@ def run(pid, tier, seed, replay):
     t2 = time.time()
     par = max(2, min(vlib.NCPU, 16))
     with ThreadPoolExecutor(max_workers=par) as ex:
-        f_self = ex.submit(selftest, files[0], work)
         parts = list(ex.map(judge, files))
-        st = f_self.result()
     bad = [v for part in parts for v in part]
+    st = selftest(files, {v["id"] for v in bad}, work)
     vlib.log("[C18] J3: %d lines judged by TLC in %.1fs, %d flagged; self-test %s" % (
         ndocs + nruns, time.time() - t2, len(bad), st))
 
@@ -329,6 +337,10 @@ def run(pid, tier, seed, replay):
                       s, len(vs), len(ids), first, json.dumps(vs[0], sort_keys=True),
                       json.dumps(describe(json.loads(docs[first - 1])), sort_keys=True)))
         violations.append(vlib.Violation(pid, "C18:" + s, detail, files_out))
+
+    if not violations and not st["ok"]:
+        # nothing was flagged, but the binding could not be demonstrated: no verdict
+        raise vlib.Inconclusive("binding self-test failed: %s" % st)
 
     classes = {doc_class(json.loads(d)) for i, d in enumerate(docs, 1) if i in accepted}
     sample_ids = sorted(accepted)[:: max(1, len(accepted) // 4)][:4]
